@@ -39,7 +39,7 @@ def next_id_processor(u):
     f.ensures.append(("C01.next", "res.is_some() ==> res.unwrap().0 >= 1 && (res.unwrap().0 as int > max_id(map_results@) || res.unwrap().0 == u32::MAX)"))
     f.ensures.append(("C01.next", "res.is_some() ==> (max_id(map_results@) == 0 ==> res.unwrap().0 == 1)"))
     f.ensures.append(("C05.same", "res.is_some() ==> res.unwrap().1 as int == sum_missing(map_results@)"))
-    f.ensures.append(("C17.total", "res.is_some() || max_id(map_results@) == u32::MAX"))
+    f.ensures.append(("C17.total", "res.is_some()"))
     f.loop_spec(0, [
         "0 <= it.index@ <= map_results@.len()",
         "ref_id_result as int == max_id(map_results@.take(it.index@))",
@@ -157,16 +157,19 @@ pub fn counter_update_fn_%d(%s: u32) -> (r: Option<u32>)
         # success means edited, with every insertion counted
         ("C05.count,C08.ok", "!res.unwrap().failure ==> is_token_insertion(%s, entries@, final(w).fs[path@])"
          " && res.unwrap().num_inserted_references as int == n_missing_all(entries@)" % c),
-        ("C03.frame", "forall|p: Seq<char>| p != path@ && !is_temp(p) ==> final(w).fs.dom().contains(p) == old(w).fs.dom().contains(p) && final(w).fs[p] == old(w).fs[p]"),
+        ("C05.count", "res.unwrap().num_inserted_references as int <= n_missing_all(entries@)"),
+        ("C03.frame", "forall|p: Seq<char>| p != path@ && !is_temp(p) ==> (#[trigger] final(w).fs.dom().contains(p)) == old(w).fs.dom().contains(p)"),
+        ("C03.frame", "forall|p: Seq<char>| p != path@ && !is_temp(p) ==> (#[trigger] final(w).fs[p]) == old(w).fs[p]"),
         ("C03.noop", "n_missing_all(entries@) == 0 ==> final(w).fs == old(w).fs && final(w).counter == old(w).counter"),
         # IDs: consecutive values of the counter, never wrapped, and the counter ends after the last one used
         ("C01.ids", "final(w).fs[path@] == %s || final(w).fs[path@] == edited(%s, entries@, consec(old(w).counter, n_missing_all(entries@)))" % (c, c)),
         ("C01.range", "old(w).counter <= final(w).counter <= old(w).counter + n_missing_all(entries@)"),
         ("C01.range", "final(w).fs[path@] != %s ==> final(w).counter == old(w).counter + n_missing_all(entries@)" % c),
         ("C01.nowrap", "final(w).counter <= u32::MAX"),
-        ("C04.frame", "final(w).orig == old(w).orig && final(w).protected == old(w).protected && final(w).check_mode == old(w).check_mode"
-         " && final(w).handlers == old(w).handlers && final(w).stop_seen == old(w).stop_seen"),
-        ("C07.intended", "forall|p: Seq<char>| p != path@ ==> final(w).intended.dom().contains(p) == old(w).intended.dom().contains(p) && final(w).intended[p] == old(w).intended[p]"),
+        ("C04.frame", "final(w).orig == old(w).orig && final(w).protected == old(w).protected && final(w).files == old(w).files && final(w).alloc == old(w).alloc"
+         " && final(w).check_mode == old(w).check_mode && final(w).handlers == old(w).handlers && final(w).stop_seen == old(w).stop_seen"),
+        ("C07.intended", "forall|p: Seq<char>| p != path@ ==> (#[trigger] final(w).intended.dom().contains(p)) == old(w).intended.dom().contains(p)"),
+        ("C07.intended", "forall|p: Seq<char>| p != path@ ==> (#[trigger] final(w).intended[p]) == old(w).intended[p]"),
         ("C07.intended", "final(w).intended.dom().contains(path@) ==> is_token_insertion(%s, entries@, final(w).intended[path@])" % c),
     ]
     f.at_start(" let ghost c = %s; let ghost first = w.counter; let ghost mut ids: Seq<int> = Seq::empty();"
@@ -178,7 +181,7 @@ pub fn counter_update_fn_%d(%s: u32) -> (r: Option<u32>)
         ("C07.frame", "atomic_inv(*w)"), "!w.check_mode", "w.protected.contains(path@)",
         "w.fs.dom().contains(scratch_file.path@)", "is_temp(scratch_file.path@)",
         ("C07.frame,C03.splice", "w.fs[path@] == c"),
-        ("C04.frame", "w.orig == old(w).orig && w.protected == old(w).protected && w.check_mode == old(w).check_mode && w.handlers == old(w).handlers && w.stop_seen == old(w).stop_seen"),
+        ("C04.frame", "w.orig == old(w).orig && w.protected == old(w).protected && w.files == old(w).files && w.alloc == old(w).alloc && w.check_mode == old(w).check_mode && w.handlers == old(w).handlers && w.stop_seen == old(w).stop_seen"),
         ("C07.intended", "w.intended == old(w).intended && !old(w).intended.dom().contains(path@)"),
         ("C03.frame", "forall|p: Seq<char>| p != path@ && !is_temp(p) ==> w.fs.dom().contains(p) == old(w).fs.dom().contains(p) && w.fs[p] == old(w).fs[p]"),
         "scratch_file.file.path() == scratch_file.path@",
@@ -202,6 +205,26 @@ pub fn counter_update_fn_%d(%s: u32) -> (r: Option<u32>)
     f.before(r"match\s+async_std::fs::rename\(", "proof { lemma_ids_consec(ids, first, n_missing_all(entries@));"
              " assert(is_token_insertion(c, entries@, edited(c, entries@, ids)));"
              " declare_intended(w, path@, scratch_file.file.accepted()); }\n        ", regex=True)
+    # ---- reduce -------------------------------------------------------------------------------------
+    f = u.real_fn(GEN, "reduce", scope=INS_SCOPE, owner="InsertReferencesProcessor", props=("C05", "C08", "C17"))
+    rules.sig(f, ret="res")
+    rules.r11_or_assign(f)
+    f.requires.append("sum_inserted(map_results@) <= usize::MAX")
+    f.ensures += [
+        ("C08.fail", "res.is_some() && res.unwrap().failure == any_failure(map_results@)"),
+        ("C05.count", "res.is_some() && res.unwrap().num_inserted_references as int == sum_inserted(map_results@)"),
+    ]
+    f.loop_spec(0, [
+        "0 <= it.index@ <= map_results@.len()",
+        "sum_inserted(map_results@) <= usize::MAX",
+        ("C05.count", "insert_count as int == sum_inserted(map_results@.take(it.index@))"),
+        ("C08.fail", "reduce_failure == any_failure(map_results@.take(it.index@))"),
+    ], iter_name="it", kind="for")
+    f.before_stmt("insert_count += map_result.num_inserted_references;", "proof { lemma_sum_inserted_mono(map_results@, it.index@ + 1); "
+                  "assert(map_results@.take(it.index@ + 1).drop_last() == map_results@.take(it.index@)); }\n            ")
+    f.before_stmt("Some(InsertReferencesResult {", "proof { assert(map_results@.take(map_results@.len() as int) == map_results@); }\n        ", nth=-1) if False else None
+    ls = f.find_all("Some(InsertReferencesResult {")
+    f.insert_at(ls[-1][0], "proof { assert(map_results@.take(map_results@.len() as int) == map_results@); }\n        ")
     u.raw("}\n}\n")
 
 
